@@ -34,6 +34,7 @@ import (
 	"github.com/talostrading/sonic"
 	"github.com/talostrading/sonic/sonicerrors"
 	"github.com/talostrading/sonic/sonicopts"
+	"github.com/talostrading/sonic/util"
 )
 
 type Stream struct {
@@ -133,6 +134,9 @@ func (s *Stream) AcquireFrame() *Frame {
 }
 
 func (s *Stream) releaseFrame(f *Frame) {
+	// A pooled frame always has room for the longest header again: SetPayload may have shrunk the slice below that,
+	// and the next user may need the 8-byte extended payload length.
+	*f = util.ExtendSlice(*f, frameMaxHeaderLength)
 	f.Reset()
 	s.framePool.Put(f)
 }
